@@ -19,7 +19,7 @@ Flat(tr) == tr.ev \o << <<tr.eot, EotEv>> >>
 IsOff(e) == e.k = "off" \/ (e.k = "on" /\ e.v = 0)
 IsOn(e)  == e.k = "on" /\ e.v > 0
 IsCtl(e) == e.k \in {"cc", "pc", "bend", "cat"}
-IsMetaCls(e) == e.k \in {"marker", "loopstart", "loopend", "begin"}
+IsMetaCls(e) == e.k \in {"marker", "loopstart", "cc111", "loopend", "begin"}
 IsSysex(e) == e.k = "sysex"
 RECURSIVE MoveOffs(_, _, _, _, _)
 \* scan noteOffs for note p of a note-on; returns [offs, moved, cnt]
@@ -75,8 +75,8 @@ TrackRows(song, ti) ==
 LoopTicks(song) ==
   LET marks == FlattenSeq([ti \in DOMAIN song.tracks |->
                  LET F == Flat(song.tracks[ti]) IN
-                 SelectSeq([i \in DOMAIN F |-> [k |-> F[i][2].k, tick |-> TickOf(F, i), trk |-> ti, i |-> i]], LAMBDA m : m.k \in {"loopstart", "loopend"})])
-      ss == SelectSeq(marks, LAMBDA m : m.k = "loopstart")  es == SelectSeq(marks, LAMBDA m : m.k = "loopend")
+                 SelectSeq([i \in DOMAIN F |-> [k |-> F[i][2].k, tick |-> TickOf(F, i), trk |-> ti, i |-> i]], LAMBDA m : m.k \in {"loopstart", "cc111", "loopend"})])
+      ss == SelectSeq(marks, LAMBDA m : m.k \in {"loopstart", "cc111"})  es == SelectSeq(marks, LAMBDA m : m.k = "loopend")
       \* "loop event in this row": two loop markers of one track in the same row (same tick, no positive delta between)
       sameRow == \E a, b \in DOMAIN marks : a < b /\ marks[a].trk = marks[b].trk /\ marks[a].tick = marks[b].tick
       songTicks == CHOOSE m \in { TickOf(Flat(song.tracks[ti]), Len(Flat(song.tracks[ti]))) : ti \in DOMAIN song.tracks } :
@@ -106,10 +106,10 @@ RowEvents(S, song, rows, ti, i, acc) ==
            S1 == [S EXCEPT !.log = Append(@, Entry(e, S.p.abs))]
            S2 == CASE e.k = "eot"   -> [S1 EXCEPT !.p.tr[ti].st = -1]
                    [] e.k = "tempo" -> [S1 EXCEPT !.tempo = e.us]
-                   [] e.k = "loopstart" /\ S.loopEn /\ ~S.inv -> [S1 EXCEPT !.log = Append(@, <<"h", S.p.abs, 1, 0>>)]
+                   [] e.k \in {"loopstart", "cc111"} /\ S.loopEn /\ ~S.inv -> [S1 EXCEPT !.log = Append(@, <<"h", S.p.abs, 1, 0>>)]
                    [] e.k = "loopend" /\ S.loopEn /\ ~S.inv -> [S1 EXCEPT !.cEnd = TRUE]
                    [] OTHER -> S1
-           st1 == IF e.k = "loopstart" /\ S.loopEn /\ ~S.inv THEN acc + 1 ELSE acc
+           st1 == IF e.k \in {"loopstart", "cc111"} /\ S.loopEn /\ ~S.inv THEN acc + 1 ELSE acc
        IN IF S2.cEnd THEN [s |-> S2, jump |-> TRUE, starts |-> st1]
           ELSE RowEvents(S2, song, rows, ti, i + 1, st1)
 RECURSIVE TrackLoop(_, _, _, _, _)
